@@ -41,6 +41,23 @@ pub fn force_prove() -> bool {
 }
 
 std::thread_local! {
+    static LAST_CHALLENGES: core::cell::RefCell<Option<[BlsScalar; 7]>> =
+        const { core::cell::RefCell::new(None) };
+}
+
+/// Records the challenges `[alpha, beta, gamma, z, v, v_w, u]` the verifier
+/// derived for the proof it is checking on the calling thread (observation
+/// only; used to build challenge-dependent adversarial proofs).
+pub fn record_verifier_challenges(challenges: [BlsScalar; 7]) {
+    LAST_CHALLENGES.with(|c| *c.borrow_mut() = Some(challenges));
+}
+
+/// Takes the challenges recorded by the last verification on this thread.
+pub fn take_verifier_challenges() -> Option<[BlsScalar; 7]> {
+    LAST_CHALLENGES.with(|c| c.borrow_mut().take())
+}
+
+std::thread_local! {
     static HOST_VIEW: Cell<Option<(usize, [u8; 32])>> = const { Cell::new(None) };
 }
 
